@@ -15,6 +15,12 @@ from ..engine import Query
 from ..lib.inhost import InHostMixin, HOST_ASSUMPTIONS
 
 PROP = "C17"
+# FINDINGS (genuine defect found by this check on the original tree, now fixed in /repo):
+#   "fix: USBSignalInEndpoint only accepts an ACK for its own IN transaction" (827caba)
+#       WAIT_FOR_ACK took any handshakes_in.ack: report sent but not received by the host, token for another device address,
+#       broadcast ACK -> status_read_complete strobed, toggle flipped, the next poll sent a *new* sample as DATA1 which the
+#       host (still expecting the DATA0 retry) drops.  Caught by: read_complete, pid_seq, value (scenario
+#       kf_foreign_ack_taken; layer fack=0 held).
 ENCODED = ["luna/gateware/usb/usb2/endpoints/status.py: USBSignalInEndpoint (latch, byte mux/endianness, retransmit FSM, toggle)"]
 ASSUMPTIONS = HOST_ASSUMPTIONS + [
     "signal_domain='usb' (no synchronizer); `signal` free every cycle",
@@ -127,8 +133,8 @@ def queries(tier):
         qs.append(Query(f"bmc_{tag}", f, K, timeout=900, asserts=ASSERTS if primary else ["any"],
                         covers=COVERS if primary else ["value", "retry_same_value"],
                         desc=f"width={width} {end}-endian: everything free (host events incl. broadcast ACKs, rx_ok, tx.ready, signal)"))
-        if primary and width == 16 and end == "little":
+        if primary and width == 16 and end == "little" and not quick:
             qs.append(Query(f"bmc_nofack_{tag}", f, K, timeout=900, asserts=["any"], covers=[], layer={"fack": 0},
                             desc=f"width={width} {end}: restricted layer: no broadcast ACKs for other devices/endpoints"))
-        qs.append(Query(f"cosim_{tag}", f, 0, kind="cosim", cosim_cycles=300 if quick else 2000))
+        qs.append(Query(f"cosim_{tag}", f, 0, kind="cosim", cosim_cycles=80 if quick else 1000))
     return qs
